@@ -227,6 +227,11 @@ namespace nmtools::array
                     result = view.op(result,inp_data_ptr[i]);
                 }
 
+                // the fold starts from the initial value, when there is one
+                if constexpr (!is_none_v<meta::remove_cvref_t<decltype(view.initial)>>) {
+                    result = view.op(static_cast<element_type>(view.initial),result);
+                }
+
                 if constexpr (meta::is_num_v<output_t>) {
                     output = result;
                 } else {
@@ -247,8 +252,13 @@ namespace nmtools::array
                         return 0;
                     }
                 }();
+                // every fold starts from the initial value, when there is one, otherwise from the identity of the op
                 for (size_t i=0; i<out_size; i++) {
-                    out_data_ptr[i] = identity;
+                    if constexpr (!is_none_v<meta::remove_cvref_t<decltype(view.initial)>>) {
+                        out_data_ptr[i] = static_cast<element_type>(view.initial);
+                    } else {
+                        out_data_ptr[i] = identity;
+                    }
                 }
                 auto inp_shape = nmtools::shape(*input_array_ptr);
                 // a negative axis counts from the end
